@@ -61,7 +61,7 @@ type socket struct {
 	flushPending atomic.Bool
 	bufMu        sync.Mutex
 	drainMu      sync.Mutex
-	// set by a graceful Close that found packets in the write buffer
+	// set by a graceful Close: the transport goes once the write buffer has been flushed
 	closeWhenFlushed atomic.Bool
 }
 
@@ -646,21 +646,15 @@ func (s *socket) Close(discard bool) {
 		verifhook.Point("socket.readyState", s, "open", "closing")
 	}
 
-	if length := s.writeBuffer.Len(); length > 0 {
-		socket_log.Debug("there are %d remaining packets in the buffer, closing the transport once they are flushed", length)
-		if verifhook.Enabled {
-			verifhook.Point("socket.Close.beforeDrainWait", s)
-		}
-		// not a subscription to 'drain': by the time a listener is registered the buffer may
-		// already have been flushed and drained, and no further drain would follow. The flush
-		// that finds the buffer empty closes the transport (see doFlush).
-		s.closeWhenFlushed.Store(true)
-		s.flush()
-		return
+	if verifhook.Enabled && s.writeBuffer.Len() > 0 {
+		verifhook.Point("socket.Close.beforeDrainWait", s)
 	}
-
-	socket_log.Debug("the buffer is empty, closing the transport right away")
-	s.closeTransport(discard)
+	// The transport is closed by the flush that finds the write buffer empty (see doFlush),
+	// never from here: a test of the buffer made outside flush() says nothing about a batch
+	// that a concurrent flush has taken but not yet handed to the transport.
+	socket_log.Debug("closing the transport once the %d buffered packets are flushed", s.writeBuffer.Len())
+	s.closeWhenFlushed.Store(true)
+	s.flush()
 }
 
 // Closes the underlying transport.
